@@ -207,7 +207,11 @@ def run_case(case, prop):
                     use = arr if k == 0 or case['shift'] == 0 or kind == 'mst' and abs(case['shift']) >= 1e6 else arr + (int(case['shift']) if arr.dtype.kind == 'i' else case['shift'])
                     keep = use.copy()
                     n0 = len(rng.events)
-                    ret = mod.exponential_mechanism(use, eps, sens, prng=rng, monotonic=case['monotonic'])
+                    if (k + len(q)) % 2 == 0:
+                        ret = mod.exponential_mechanism(use, eps, sens, prng=rng, monotonic=case['monotonic'])
+                    else:
+                        ret = mod.exponential_mechanism(use, eps, sens, rng, case['monotonic'])      # documented positional order
+                        faults['positional-call'] = faults.get('positional-call', 0) + 1
                     steps += 1
                     ev = one_choice(rng, n0, '%s.exponential_mechanism' % kind, viol, kind)
                     if ev is None:
